@@ -48,17 +48,71 @@ type Field struct {
 	GoType string   `json:"gotype"`
 	Kind   string   `json:"kind"`             // string|int|uint|float|bool|named|plain(untagged)
 	Values []string `json:"values,omitempty"` // Go expressions of type GoType
-	Ranks  []int64  `json:"ranks,omitempty"`  // order-preserving rank of each value as the key reads it; bool: 0/1
+	Ranks  []int64  `json:"ranks,omitempty"`  // order-preserving rank of each value read plainly (`s[i].F`); bool: 0/1
+	// order-preserving rank of each value read through the String() accessor (named kinds); which
+	// of the two a key reads is decided per TAG: one field may be a plain key of one sorter and a
+	// String() key of another
+	AccRanks []int64 `json:"acc_ranks,omitempty"`
 	Tags   []Tag    `json:"tags,omitempty"`
 	// further struct-tag pairs of the field: malformed gsort options (not part of the intended
 	// definition; generation must fail) and an unrelated json key placed before gsort tag #JSONAt
 	BadTags []string `json:"bad_tags,omitempty"`
+	// pairs written before the gsort tags under a key that merely ends in "gsort" (key, value)
+	PreTags [][2]string `json:"pre_tags,omitempty"`
 	JSONTag string   `json:"json_tag,omitempty"`
 	JSONAt  int      `json:"json_at,omitempty"`
-	// named kind: underlying type and String() table
+	// named kind: underlying type, the literals of its values in ascending order of the
+	// underlying type, the String() result of each literal, and per entry of Values the index of
+	// its literal
 	Under   string   `json:"under,omitempty"`
+	Lits    []string `json:"lits,omitempty"`
 	Strings []string `json:"strings,omitempty"`
+	Ords    []int    `json:"ords,omitempty"`
 }
+
+// namedLits: the values a named type of the given underlying type takes in the farm, ascending.
+func namedLits(under string) []string {
+	switch under {
+	case "bool":
+		return []string{"false", "true"}
+	case "string":
+		return []string{`"k"`, `"m"`, `"z"`}
+	case "float64", "float32":
+		return []string{"-1.5", "0.25", "2.5"}
+	}
+	return []string{"0", "1", "2"}
+}
+
+// normalize completes a named field (also one read from an older corpus / replay file, which
+// had integer underlying types only and kept the accessor ranks in Ranks): literals, the literal
+// index of every value, ranks of both views.
+func normalize(f *Field) {
+	if f.Kind != "named" {
+		return
+	}
+	if len(f.Lits) == 0 {
+		f.Lits = namedLits(f.Under)
+	}
+	if len(f.Ords) != len(f.Values) {
+		f.Ords = make([]int, len(f.Values))
+		for i, e := range f.Values {
+			inner := strings.TrimSuffix(e[strings.Index(e, "(")+1:], ")")
+			for j, l := range f.Lits {
+				if l == inner {
+					f.Ords[i] = j
+				}
+			}
+		}
+	}
+	f.Ranks = make([]int64, len(f.Ords))
+	for i, o := range f.Ords {
+		f.Ranks[i] = int64(o)
+	}
+	f.AccRanks = ranksOf(len(f.Ords), func(i, j int) bool { return f.Strings[f.Ords[i]] < f.Strings[f.Ords[j]] })
+}
+
+// mustAcc: a named bool has no `<`; it is a key only through its String() accessor.
+func mustAcc(f *Field) bool { return f.Kind == "named" && f.Under == "bool" }
 
 // Def is one struct definition = one package of the farm.
 type Def struct {
@@ -202,42 +256,30 @@ func fillValues(r *rand.Rand, f *Field, idx int) {
 			f.Values, f.Ranks = []string{"true", "false"}, []int64{1, 0}
 		}
 	case "named":
-		// a named integer type with a String() method whose string order differs from the
-		// numeric order; tagged either with the String() accessor or plainly
-		f.Under = []string{"int", "uint8", "int16"}[r.IntN(3)]
+		// a named type (integer, string, float or bool underneath) with a String() method whose
+		// string order differs from the order of the underlying values; tagged with the
+		// String() accessor or plainly, tag by tag
+		f.Under = []string{"int", "uint8", "int16", "int", "string", "float64", "bool"}[r.IntN(7)]
 		f.GoType = fmt.Sprintf("N%d", idx)
-		tbl := pick(r, len(stringPool), 3)
-		f.Strings = make([]string, 3)
+		f.Lits = namedLits(f.Under)
+		nl := len(f.Lits)
+		tbl := pick(r, len(stringPool), nl)
+		f.Strings = make([]string, nl)
 		for i, j := range tbl {
 			f.Strings[i] = stringPool[j]
 		}
 		if r.IntN(4) == 0 {
-			f.Strings[2] = f.Strings[0] // two values with the same String(): a tie under the accessor
+			f.Strings[nl-1] = f.Strings[0] // two values with the same String(): a tie under the accessor
 		}
-		p := pick(r, 3, k)
-		vals := make([]int, k)
-		for i, j := range p {
-			vals[i] = j
-			f.Values = append(f.Values, fmt.Sprintf("%s(%d)", f.GoType, j))
+		if k > nl {
+			k = nl
 		}
-		// ranks are filled in by setNamedRanks once the accessor choice is known
-		f.Ranks = make([]int64, k)
-		for i := range vals {
-			f.Ranks[i] = int64(vals[i])
+		for _, j := range pick(r, nl, k) {
+			f.Ords = append(f.Ords, j)
+			f.Values = append(f.Values, fmt.Sprintf("%s(%s)", f.GoType, f.Lits[j]))
 		}
+		normalize(f)
 	}
-}
-
-// setNamedRanks: with the String() accessor the key is the string.
-func setNamedRanks(f *Field, useAcc bool) {
-	if f.Kind != "named" || !useAcc {
-		return
-	}
-	ords := make([]int, len(f.Values))
-	for i, e := range f.Values {
-		fmt.Sscanf(e[strings.Index(e, "(")+1:], "%d", &ords[i])
-	}
-	f.Ranks = ranksOf(len(ords), func(i, j int) bool { return f.Strings[ords[i]] < f.Strings[ords[j]] })
 }
 
 // ---------------------------------------------------------------- random definitions
@@ -282,18 +324,18 @@ func randomDef(r *rand.Rand, n int, nearmiss bool) Def {
 			member[s] = []int{r.IntN(nf)}
 		}
 	}
-	// accessor use is per field (every tag of a named field reads it the same way)
-	useAcc := make([]bool, nf)
-	for i := range useAcc {
-		useAcc[i] = d.Fields[i].Kind == "named" && r.IntN(3) > 0
-		setNamedRanks(&d.Fields[i], useAcc[i])
+	// accessor use is per TAG: a named field may be read through String() by one sorter and
+	// plainly by another (any order of the two tags on the field)
+	useAcc := func(i int) bool {
+		f := &d.Fields[i]
+		return f.Kind == "named" && (mustAcc(f) || r.IntN(3) > 0)
 	}
 	for s := 0; s < ns; s++ {
 		// distinct priorities drawn from a range with gaps, negatives and zero
 		prios := r.Perm(13)[:len(member[s])]
 		for k, i := range member[s] {
 			t := Tag{Sorter: names[s], Prio: prios[k] - 3}
-			if useAcc[i] {
+			if useAcc(i) {
 				t.Acc = "String()"
 			}
 			if t.Prio == 0 && t.Acc == "" && r.IntN(2) == 0 {
@@ -309,7 +351,45 @@ func randomDef(r *rand.Rand, n int, nearmiss bool) Def {
 	}
 	if nearmiss {
 		d.Kind = "nearmiss"
-		switch r.IntN(6) {
+		switch r.IntN(8) {
+		case 6:
+			// outside the quantifier: another key of the struct tag ends in "gsort"; when it
+			// carries the option text of one of the field's gsort tags the generator's textual
+			// Replace hits it first and the rest of the tag is lost.  Model only.
+			i := r.IntN(nf)
+			key := []string{"xgsort", "notgsort", "my-gsort"}[r.IntN(3)]
+			val := "Other,1"
+			if r.IntN(3) > 0 {
+				val = optionText(d.Fields[i].Tags[r.IntN(len(d.Fields[i].Tags))])
+			}
+			d.Fields[i].PreTags = [][2]string{{key, val}}
+			d.Kind = "out-of-domain-foreign-gsort-key"
+			d.Malformed = true
+		case 7:
+			// outside the quantifier: one sorter name in both forms, `S` and `*S` (two map keys
+			// in the generator, one Go type name).  Model only.
+			i, j := r.IntN(nf), r.IntN(nf)
+			base := sorterGoName(d.Fields[i].Tags[0].Sorter)
+			for k := range d.Fields {
+				var keep []Tag
+				for _, t := range d.Fields[k].Tags {
+					if sorterGoName(t.Sorter) != base {
+						keep = append(keep, t)
+					}
+				}
+				d.Fields[k].Tags = keep
+			}
+			ta := Tag{Sorter: base, Prio: 1}
+			tb := Tag{Sorter: "*" + base, Prio: 1}
+			if useAcc(i) {
+				ta.Acc = "String()"
+			}
+			if useAcc(j) {
+				tb.Acc = "String()"
+			}
+			d.Fields[i].Tags = append(d.Fields[i].Tags, ta)
+			d.Fields[j].Tags = append(d.Fields[j].Tags, tb)
+			d.Kind = "out-of-domain-both-forms"
 		case 3:
 			// inside the quantifier: a priority written the way strconv.Atoi also accepts it
 			// (explicit plus sign, leading zeros)
@@ -356,7 +436,7 @@ func randomDef(r *rand.Rand, n int, nearmiss bool) Def {
 			j := r.IntN(nf)
 			t2 := t
 			t2.Bare = false
-			if d.Fields[j].Kind == "named" && useAcc[j] {
+			if useAcc(j) {
 				t2.Acc = "String()"
 			} else {
 				t2.Acc = ""
@@ -371,7 +451,7 @@ func randomDef(r *rand.Rand, n int, nearmiss bool) Def {
 	}
 	// an unrelated key in the struct tag of some fields, before, between or after the gsort keys
 	for i := range d.Fields {
-		if len(d.Fields[i].Tags) > 0 && r.IntN(3) == 0 {
+		if len(d.Fields[i].Tags) > 0 && len(d.Fields[i].PreTags) == 0 && r.IntN(3) == 0 {
 			d.Fields[i].JSONTag = strings.ToLower(d.Fields[i].Name) + ",omitempty"
 			d.Fields[i].JSONAt = r.IntN(len(d.Fields[i].Tags) + 1)
 		}
@@ -396,8 +476,17 @@ func corpusDefs() []Def {
 		return Field{Name: name, GoType: "int", Kind: "int", Values: []string{"int(-1)", "int(0)", "int(5)"}, Ranks: []int64{0, 1, 2}, Tags: tags}
 	}
 	cat := Field{Name: "Category", GoType: "Category", Kind: "named", Under: "int", Strings: []string{"Unset", "ACategory", "BCategory"},
-		Values: []string{"Category(0)", "Category(1)", "Category(2)"}, Ranks: []int64{2, 0, 1},
+		Values: []string{"Category(0)", "Category(1)", "Category(2)"},
 		Tags: []Tag{{Sorter: "Sortables", Prio: 1, Acc: "String()"}}}
+	// a named type whose String() order is the reverse of / unrelated to the order of its values
+	nm := func(name, typ, under string, strs []string, tags ...Tag) Field {
+		f := Field{Name: name, GoType: typ, Kind: "named", Under: under, Strings: strs, Tags: tags}
+		for _, l := range namedLits(under) {
+			f.Values = append(f.Values, typ+"("+l+")")
+		}
+		return f
+	}
+	acc := "String()"
 	return []Def{
 		// DESIGN §5 witness: a bool as the last (here: only) key
 		{Kind: "corpus", Pkg: "c0", Type: "OnlyFlag", Fields: []Field{b("Flag", Tag{Sorter: "ByFlag", Prio: 1})}},
@@ -414,6 +503,34 @@ func corpusDefs() []Def {
 			n("Property2", Tag{Sorter: "Sortables", Prio: 3}, Tag{Sorter: "*SortOnPriority2", Prio: 1}),
 			n("property3", Tag{Sorter: "Sortables", Prio: 4}),
 			{Name: "UnsortedProp", GoType: "string", Kind: "plain"}}},
+		// several gsort tags on one field, each read the way ITS tag says.  One field is a
+		// String() key of one sorter and a plain key of another; accessor in the earlier tag
+		{Kind: "corpus", Pkg: "c4", Type: "AccThenPlain", Fields: []Field{
+			nm("Cat", "Cat4", "int", []string{"zebra", "mango", "apple"},
+				Tag{Sorter: "ByCatName", Prio: 1, Acc: acc}, Tag{Sorter: "ByCat", Prio: 1}),
+			s("Name", Tag{Sorter: "ByCatName", Prio: 2}, Tag{Sorter: "ByCat", Prio: 2})}},
+		// ... accessor in the later tag
+		{Kind: "corpus", Pkg: "c5", Type: "PlainThenAcc", Fields: []Field{
+			nm("Cat", "Cat5", "int", []string{"zebra", "mango", "apple"},
+				Tag{Sorter: "*ByCat", Prio: 1}, Tag{Sorter: "*ByCatName", Prio: 1, Acc: acc}),
+			s("Name", Tag{Sorter: "*ByCatName", Prio: 2}, Tag{Sorter: "*ByCat", Prio: 2})}},
+		// ... three tags: accessor, plain, accessor; priorities all different per tag
+		{Kind: "corpus", Pkg: "c6", Type: "AccPlainAcc", Fields: []Field{
+			nm("Cat", "Cat6", "uint8", []string{"b", "a", "b"},
+				Tag{Sorter: "A", Prio: 7, Acc: acc}, Tag{Sorter: "B", Prio: -2}, Tag{Sorter: "*C", Prio: 3, Acc: acc}),
+			n("Num", Tag{Sorter: "A", Prio: 1}, Tag{Sorter: "B", Prio: 4}, Tag{Sorter: "*C", Prio: 5})}},
+		// a tag that leaves the priority out (= 0) after one of the same field that spells one
+		// out, and the other way round: the key order of each sorter follows its own tags
+		{Kind: "corpus", Pkg: "c7", Type: "PrioThenBare", Fields: []Field{
+			n("Num", Tag{Sorter: "A", Prio: 5}, Tag{Sorter: "B", Bare: true}),
+			s("Name", Tag{Sorter: "B", Prio: 3}, Tag{Sorter: "A", Prio: 1}),
+			b("Flag", Tag{Sorter: "*C", Bare: true}, Tag{Sorter: "A", Prio: 9}, Tag{Sorter: "B", Prio: -1})}},
+		// named types over every kind of underlying type read through String(): bool (which has
+		// no `<` of its own), string, float; the latter two also plainly by another sorter
+		{Kind: "corpus", Pkg: "c8", Type: "NamedKinds", Fields: []Field{
+			nm("State", "State8", "bool", []string{"on", "off"}, Tag{Sorter: "ByState", Prio: 1, Acc: acc}, Tag{Sorter: "*All", Prio: 3, Acc: acc}),
+			nm("Label", "Label8", "string", []string{"3", "1", "2"}, Tag{Sorter: "ByState", Prio: 2, Acc: acc}, Tag{Sorter: "*All", Prio: 1}),
+			nm("Score", "Score8", "float64", []string{"low", "mid", "high"}, Tag{Sorter: "*All", Prio: 2, Acc: acc}, Tag{Sorter: "ByScore", Prio: 0})}},
 	}
 }
 
@@ -437,6 +554,7 @@ func optionText(t Tag) string {
 // pairs lists the key/value pairs of the field's struct tag in source order.
 func pairs(f Field) [][2]string {
 	var out [][2]string
+	out = append(out, f.PreTags...)
 	for i, t := range f.Tags {
 		if f.JSONTag != "" && f.JSONAt == i {
 			out = append(out, [2]string{"json", f.JSONTag})
@@ -460,7 +578,7 @@ func defSource(d *Def) string {
 			fmt.Fprintf(&b, "// %s has a String accessor.\ntype %s %s\n\n", f.GoType, f.GoType, f.Under)
 			fmt.Fprintf(&b, "func (v %s) String() string {\n\tswitch v {\n", f.GoType)
 			for i, s := range f.Strings {
-				fmt.Fprintf(&b, "\tcase %d:\n\t\treturn %s\n", i, strconv.Quote(s))
+				fmt.Fprintf(&b, "\tcase %s:\n\t\treturn %s\n", f.Lits[i], strconv.Quote(s))
 			}
 			fmt.Fprintf(&b, "\t}\n\treturn \"?\"\n}\n\n")
 		}
@@ -483,7 +601,7 @@ func defSource(d *Def) string {
 
 func sorterGoName(s string) string { return strings.TrimPrefix(s, "*") }
 
-func drvSource(d *Def) string {
+func drvSource(d *Def, absent map[string]bool) string {
 	var b strings.Builder
 	fmt.Fprintf(&b, "package %s\n\nimport (\n\t\"math\"\n\t\"sort\"\n\n\t\"farm/rt\"\n)\n\nvar _ = math.Inf\n\n", d.Pkg)
 	tg := d.tagged()
@@ -497,6 +615,9 @@ func drvSource(d *Def) string {
 	}
 	b.WriteString("\nfunc init() {\n")
 	for _, s := range d.sorters() {
+		if absent[s] {
+			continue
+		}
 		name := sorterGoName(s)
 		ptr := strings.HasPrefix(s, "*")
 		fmt.Fprintf(&b, "\trt.Register(&rt.Driver{Key: %q, Radix: []int{%s},\n", d.Pkg+"/"+d.Type+"/"+s, strings.Join(radix, ", "))
@@ -569,7 +690,42 @@ type Result struct {
 	SeenT      []string ` + "`json:\"seen_t\"`" + `
 	SeenF      []string ` + "`json:\"seen_f\"`" + `
 	Runs       []Run    ` + "`json:\"runs\"`" + `
+	LenSwapBad string   ` + "`json:\"lenswap_bad,omitempty\"`" + ` // first Len/Swap observation that broke the sort.Interface contract
+	LenSwaps   int      ` + "`json:\"lenswaps\"`" + `
 	Panic      string   ` + "`json:\"panic,omitempty\"`" + `
+}
+
+// probeLenSwap: Len() is the number of elements; Swap(i, j) exchanges exactly elements i and j
+// (ids tell the elements apart) — for every pair of positions of a slice of n elements.
+func (d *Driver) probeLenSwap(res *Result, tup [][]int, n int, r *rand.Rand) {
+	s := d.New(n)
+	for p := 0; p < n; p++ {
+		d.Set(s, p, tup[r.IntN(len(tup))], p)
+	}
+	if s.Len() != n && res.LenSwapBad == "" {
+		res.LenSwapBad = "Len() of a slice of " + itoa(n) + " elements = " + itoa(s.Len())
+	}
+	want := make([]int, n)
+	for p := range want {
+		want[p] = p
+	}
+	for i := 0; i < n; i++ {
+		for j := 0; j < n; j++ {
+			s.Swap(i, j)
+			want[i], want[j] = want[j], want[i]
+			res.LenSwaps++
+			for p := 0; p < n; p++ {
+				if d.ID(s, p) != want[p] && res.LenSwapBad == "" {
+					res.LenSwapBad = "Swap(" + itoa(i) + ", " + itoa(j) + ") on " + itoa(n) + " elements: position " + itoa(p) + " holds element " + itoa(d.ID(s, p)) + ", expected " + itoa(want[p])
+				}
+			}
+		}
+	}
+}
+
+func itoa(n int) string {
+	b, _ := json.Marshal(n)
+	return string(b)
 }
 
 func tuples(radix []int) [][]int {
@@ -666,6 +822,9 @@ func (d *Driver) run(cfg Config, seed uint64) (res Result) {
 			}
 		}
 	}
+	for _, n := range []int{0, 1, 2, 3, 5} {
+		d.probeLenSwap(&res, tup, n, r)
+	}
 	for k := 0; k < cfg.Runs; k++ {
 		n := k
 		switch {
@@ -741,6 +900,9 @@ type genResult struct {
 	ok   bool
 	log  string
 	text map[string][]string // sorter (as written) -> trimmed lines of its block
+	// sorters of the definition for which the output has no block (possible for malformed
+	// definitions only: a tag the parser never saw); the driver leaves them out
+	absent map[string]bool
 }
 
 type farmResult struct {
@@ -756,7 +918,9 @@ type farmResult struct {
 		Sort   []int `json:"sort"`
 		Stable []int `json:"stable"`
 	} `json:"runs"`
-	Panic string `json:"panic,omitempty"`
+	LenSwapBad string `json:"lenswap_bad,omitempty"`
+	LenSwaps   int    `json:"lenswaps"`
+	Panic      string `json:"panic,omitempty"`
 }
 
 func must(err error) {
@@ -828,8 +992,12 @@ func runFarm(work, gsortBin string, defs []Def, cfg map[string]any) ([]genResult
 			if b, err := os.ReadFile(filepath.Join(dir, "def.gsort.go")); err == nil && rc == 0 {
 				blocks := sorterBlocks(string(b))
 				g.text = map[string][]string{}
+				g.absent = map[string]bool{}
 				for _, s := range d.sorters() {
 					g.text[s] = blocks[sorterGoName(s)]
+					if d.Malformed && len(g.text[s]) == 0 {
+						g.absent[s] = true
+					}
 				}
 			} else if rc == 0 {
 				g.ok, g.log = false, log+"\n(no output file written)"
@@ -843,7 +1011,7 @@ func runFarm(work, gsortBin string, defs []Def, cfg map[string]any) ([]genResult
 	for i := range defs {
 		if gens[i].ok {
 			alive[i] = true
-			writeFile(filepath.Join(work, defs[i].Pkg, "drv.go"), drvSource(&defs[i]))
+			writeFile(filepath.Join(work, defs[i].Pkg, "drv.go"), drvSource(&defs[i], gens[i].absent))
 		}
 	}
 	buildLog := ""
@@ -910,6 +1078,8 @@ type jcase struct {
 	SeenT      []string   `json:"seen_t"`
 	SeenF      []string   `json:"seen_f"`
 	Runs       [][3][]int `json:"runs"`
+	LenSwapBad string     `json:"lenswap_bad,omitempty"`
+	LenSwaps   int        `json:"lenswaps,omitempty"`
 	Source     string     `json:"source"`
 }
 
@@ -946,17 +1116,26 @@ func tuplesOf(radix []int) [][]int {
 	return out
 }
 
-// galVals: per struct field the list of values the farm uses, as the key reads them.
+// galVals: per struct field the list of values the farm uses, each as its two views: read
+// plainly and read through the accessor (a dummy where a view is never read).
 func galVals(d *Def) string {
 	out := make([]string, len(d.Fields))
 	for i, f := range d.Fields {
 		switch {
 		case len(f.Tags) == 0:
-			out[i] = "[VZ 0]"
+			out[i] = "[[VZ 0; VZ 0]]"
 		case f.GoType == "bool":
-			out[i] = gal.ListOf(f.Ranks, func(r int64) string { return "VB " + gal.Bool(r == 1) })
+			out[i] = gal.ListOf(f.Ranks, func(r int64) string { return "[VB " + gal.Bool(r == 1) + "; VZ 0]" })
 		default:
-			out[i] = gal.ListOf(f.Ranks, func(r int64) string { return "VZ " + gal.Z(r) })
+			vs := make([]string, len(f.Ranks))
+			for k, r := range f.Ranks {
+				a := int64(0)
+				if k < len(f.AccRanks) {
+					a = f.AccRanks[k]
+				}
+				vs[k] = "[VZ " + gal.Z(r) + "; VZ " + gal.Z(a) + "]"
+			}
+			out[i] = gal.List(vs)
 		}
 	}
 	return gal.List(out)
@@ -984,7 +1163,10 @@ func emitCases(out *gal.Out, defs []Def, gens []genResult, res map[string]farmRe
 		for _, s := range d.sorters() {
 			jc := jcase{Kind: d.Kind, Def: *d, Sorter: s, GenOK: gens[i].ok, Source: defSource(d)}
 			var fr farmResult
-			if gens[i].ok {
+			if gens[i].ok && gens[i].absent[s] {
+				jc.GenOK = false
+				jc.GenLog = "the generated file has no block for this sorter"
+			} else if gens[i].ok {
 				var ok bool
 				fr, ok = res[d.Pkg+"/"+d.Type+"/"+s]
 				if !ok || fr.Panic != "" {
@@ -1001,6 +1183,7 @@ func emitCases(out *gal.Out, defs []Def, gens []genResult, res map[string]farmRe
 				jc.Text = gens[i].text[s]
 				jc.NV, jc.Exhaustive, jc.Slices, jc.LessCalls = fr.NV, fr.Exhaustive, fr.Slices, fr.LessCalls
 				jc.Univ, jc.SeenT, jc.SeenF = tups, fr.SeenT, fr.SeenF
+				jc.LenSwapBad, jc.LenSwaps = fr.LenSwapBad, fr.LenSwaps
 				for _, r := range fr.Runs {
 					jc.Runs = append(jc.Runs, [3][]int{r.In, r.Sort, r.Stable})
 				}
@@ -1017,6 +1200,7 @@ func emitCases(out *gal.Out, defs []Def, gens []genResult, res map[string]farmRe
 				"; gc_text := " + gal.ListOf(jc.Text, gal.Str) +
 				"; gc_vals := " + galVals(d) +
 				"; gc_seen_t := " + nlist(jc.SeenT) + "; gc_seen_f := " + nlist(jc.SeenF) +
+				"; gc_lenswap := " + gal.Bool(jc.LenSwapBad == "") +
 				"; gc_runs := " + gal.ListOf(jc.Runs, func(r [3][]int) string {
 				return "{| sr_in := " + pack(r[0]) + "; sr_sort := " + pack(r[1]) + "; sr_stable := " + pack(r[2]) + " |}"
 			}) + " |}"
@@ -1079,6 +1263,11 @@ func main() {
 			pre = append(pre, ds...)
 		}
 		defs = append(pre, defs...)
+	}
+	for i := range defs {
+		for k := range defs[i].Fields {
+			normalize(&defs[i].Fields[k])
+		}
 	}
 	// package names must be distinct inside the module
 	seen := map[string]bool{}
